@@ -117,6 +117,18 @@ def _json_or_none(b):
         return None
 
 
+
+def _render_now(resp):
+    """resp.render_body() from synchronous test code: the ASGI Response's coroutine is driven to completion by hand (the stock media
+    handlers never suspend)."""
+    c = resp.render_body()
+    if hasattr(c, 'send'):
+        try:
+            c.send(None)
+        except StopIteration:
+            return
+        c.close()
+
 def _install(app, asgi, site, raiser, preset=None, extra_mw=None):
     """Put `raiser(resp)` (a plain function that raises) at the given site of a fresh app; `preset(resp)` runs in an earlier phase
     (or, if there is none, right before the raise)."""
@@ -402,6 +414,7 @@ def _sites(ctx):
         presets = [p for p in ('text', 'data', 'media') if rnd.random() < 0.6] or ['text']
         if site in ('render', 'render415'):
             presets = ['media']
+        primed = site not in ('render', 'render415') and rnd.random() < 0.4
 
         class AppErr(Exception):
             pass
@@ -425,6 +438,8 @@ def _sites(ctx):
             if 'text' in presets: resp.text = 'PRESET-text'
             if 'data' in presets: resp.data = b'PRESET-data'
             if 'media' in presets: resp.media = {'PRESET': 'media'}
+            if primed:                       # an earlier phase already rendered the body once (render cache filled)
+                _render_now(resp)
 
         def raiser(resp):
             if site == 'render':
@@ -521,7 +536,7 @@ def _sites(ctx):
             what = f'content set before the raise was sent: {r.body[:80]!r}'
         if what is None and b'DRAFT' in r.body:
             what = f'content the handler set before raising was sent instead of the raised error/status: {r.body[:80]!r}'
-        case = {'stack': stack, 'site': site, 'raised': raised, 'handler_outcome': out, 'preset': presets, 'via_testing': ci % 16 == 5}
+        case = {'stack': stack, 'site': site, 'raised': raised, 'handler_outcome': out, 'preset': presets, 'preset_rendered_once': primed, 'via_testing': ci % 16 == 5}
         if out and out.startswith('draft_'):
             case['handler_drafts'] = drafts
         ctx.oracle(name, what is None, what, case)
@@ -724,9 +739,23 @@ def _serialization(ctx):
         def raiser(resp):
             raise make()
 
+        # content the response already carries when the error is raised, possibly already rendered once (an earlier phase called
+        # resp.render_body(), e.g. to log or sign the body): all of it must be discarded
+        stale = rnd.choice([None, None, 'text', 'data', 'media', 'media', 'media+text'])
+        primed = stale is not None and rnd.random() < 0.6
+
         def preset(resp):
             if pre_hdr:
                 resp.set_header(*pre_hdr)
+            if stale:
+                if 'media' in stale: resp.media = {'STALE': 'media'}
+                if 'text' in stale: resp.text = 'STALE-text'
+                if stale == 'data': resp.data = b'STALE-data'
+                if primed:
+                    try:
+                        _render_now(resp)
+                    except Exception:  # noqa  (no handler for the default media type in this configuration)
+                        pass
         app = _install(falcon.asgi.App if asgi else falcon.App, asgi, site, raiser, preset)
         app.resp_options.xml_error_serialization = xml_on
         mh = app.resp_options.media_handlers
@@ -740,8 +769,9 @@ def _serialization(ctx):
         keys = list(mh)                                  # mapping order, as default_serialize_error iterates it
         r = _call(app, stack, via_testing=(ci % 16 == 9), headers={'Accept': accept} if accept is not None else None)
         case = {'stack': stack, 'site': site, 'kind': kind, 'accept': accept, 'xml_error_serialization': xml_on, 'response_media_handlers': keys,
-                'header_set_before_the_raise': pre_hdr, 'via_testing': ci % 16 == 9}
+                'header_set_before_the_raise': pre_hdr, 'via_testing': ci % 16 == 9, 'body_set_before_the_raise': stale, 'and_rendered_once': primed}
         what = None
+        ctx.count('c_stale_' + str(stale) + ('_rendered' if primed else ''))
         hl = list(hdrs.items()) if isinstance(hdrs, dict) else (hdrs or [])
 
         def headers_kept():
